@@ -31,7 +31,7 @@ def symbolize(exe, cls):
 
 FLAGS = ["-DRFC6531_FOLLOW_RFC5322", "-DRFC6531_FOLLOW_RFC20", "-DLABELS_ALLOW_UNDERSCORE"]
 VARIANTS = {"-idn": ([], "idn"), "-idnkit": ([], "idnkit"), "-crowd": (["-DSIM_MAXT=321", "-DSIM_NCELL_LOG=14"], "idn2"),
-            "-extra": (["-DEAV_EXTRA"], "idn2"), "-flags": (FLAGS, "idn2"), "-ndebug": (build.ALT_CONFIG, "idn2")}
+            "-extra": (["-DEAV_EXTRA"], "idn2"), "-flags": (FLAGS, "idn2"), "-ndebug": (build.ALT_CONFIG, "idn2"), "-debug": (["-D_DEBUG"], "idn2")}
 
 
 def main(tier, replay=None):
@@ -77,6 +77,9 @@ def main(tier, replay=None):
     # "crowd": up to 320 threads (runtime built with a larger thread table and a smaller shadow table)
     exe_c, _ = build.build_sched("-crowd", ["-DSIM_MAXT=321", "-DSIM_NCELL_LOG=14"])
     batches.append(Batch("crowd", exe_c, "C14", "crowd", seed + 8, 160 if q else 10**8, 60 if q else 120, W, extra=extra("crowd")).run())
+    # the Makefile's own `make debug` configuration (-D_DEBUG: trace code compiled into the library)
+    exe_d, _ = build.build_sched("-debug", ["-D_DEBUG"])
+    batches.append(Batch("swarm-debug", exe_d, "C14", "swarm", seed + 12, 3000 if q else 10**8, 60 if q else 90, W, extra=extra("swarm-debug")).run())
     if tier == "thorough":
         # other build configurations of the same sources: EAV_EXTRA (strndup'd lpart/domain), and the optional grammar flags
         for vn, defs in (("-extra", ["-DEAV_EXTRA"]), ("-flags", FLAGS), ("-ndebug", build.ALT_CONFIG)):
